@@ -359,7 +359,7 @@ func oneTrace(w *vt.Writer, rng *rand.Rand, id int, st *stats) {
 			case 2:
 				o = wOutcome{kind: "zero"}
 			}
-			if fam == 2 || wr.Intn(3) == 0 {
+			if fam == 2 || fam >= 4 || wr.Intn(3) == 0 {
 				o.slow = time.Duration(50+wr.Intn(1500)) * time.Microsecond
 			}
 		}
@@ -503,6 +503,26 @@ func oneTrace(w *vt.Writer, rng *rand.Rand, id int, st *stats) {
 					p = inPkt{raw: garbage(20+rng.Intn(80), true), kind: "garbage-hdr"}
 				case x == 1:
 					p = inPkt{raw: garbage(1+rng.Intn(40), false), kind: "garbage"}
+				case family == 4 && x < 9:
+					var slow []rtpkt.Named
+					for _, n := range cand {
+						for _, pre := range []string{"badmac", "expired", "wrong-ingress", "traceroute", "scmperr-badmac", "xover-2-1", "unknown-egress"} {
+							if strings.HasPrefix(n.Name, pre) {
+								slow = append(slow, n)
+							}
+						}
+					}
+					if len(slow) == 0 {
+						slow = cand
+					}
+					n := slow[rng.Intn(len(slow))]
+					p = inPkt{raw: n.Raw, kind: n.Name}
+				case family == 5 && x < 9:
+					for _, n := range cand {
+						if n.Name == "stun-0" && x < 7 || n.Name == "stun-badfp-0" && x >= 7 {
+							p = inPkt{raw: n.Raw, kind: n.Name}
+						}
+					}
 				case family == 2 && x < 8:
 					// egress pressure: everything towards one egress
 					for _, n := range cand {
